@@ -445,6 +445,19 @@ class AffTok(Ext):
             return PyCallable(lambda i, a, k: AffTok(tuple(f"inv({x})" for x in reversed(self.app))))
         if attr == "decompose_translation":
             return PyCallable(lambda i, a, k: (AffTok(("translation-part-of[" + "*".join(self.app) + "]",)) if self.app else AffTok(), AffTok(("linear-part-of[" + "*".join(self.app) + "]",)) if self.app else AffTok()))
+        if attr == "gettranslate":
+            def gt(i, a, k):
+                from sa.poly import RF
+                from fractions import Fraction
+                if not self.app:
+                    return (0, 0)
+                if len(self.app) == 1:
+                    m = _re.fullmatch(r"translate\((-?[\d./]+),(-?[\d./]+)\)", self.app[0])
+                    if m:
+                        return tuple(int(t) if t.lstrip("-").isdigit() else Fraction(t) for t in m.groups())
+                tag = "*".join(self.app)
+                return (RF.sym(f"e[{tag}]"), RF.sym(f"f[{tag}]"))
+            return PyCallable(gt)
         if attr == "map_point":
             def mp(i, a, k):
                 from sa.poly import RF
@@ -473,6 +486,13 @@ def parse_affine(s):
     if isinstance(s, str) and s.startswith("affine:"):
         body = s[len("affine:"):]
         return AffTok(() if body == "identity" else tuple(body.split("*")))
+    if isinstance(s, str):
+        # a plain translation written with constants is kept as what it is (code asks transforms for their translation part)
+        m = _re.fullmatch(r"\s*translate\(\s*(-?\d+(?:\.\d+)?)(?:[\s,]+(-?\d+(?:\.\d+)?))?\s*\)\s*", s)
+        if m:
+            from fractions import Fraction
+            num = lambda t: (int(t) if "." not in t else Fraction(t))
+            return AffTok((f"translate({num(m.group(1))!r},{num(m.group(2) or '0')!r})",))
     return AffTok.atom(f"parse({s})")
 
 
